@@ -185,4 +185,26 @@ VARIANTS = [
     {"name": "R3 tuple constructor forces zero_median on every component", "file": SER, "expect": "C10.R3",
      "old": "                QuantizedFloat(self.ELEM_SPEC, lower, upper)\n                for lower, upper in component_scales\n",
      "new": "                QuantizedFloat(self.ELEM_SPEC, lower, upper, True)\n                for lower, upper in component_scales\n"},
+
+    # ---------------------------------------------------------------- round 7: adapters around quantisers, value-dependent skips
+    {"name": "R1 packed quaternion components rounded to 6 decimals before quantising", "file": SER, "expect": "C10.R1",
+     "old": "            val = dtypes.Quaternion(*val).data(self._child_spec.NUM_ELEMS)\n",
+     "new": "            val = tuple(round(c, 6) for c in dtypes.Quaternion(*val).data(self._child_spec.NUM_ELEMS))\n"},
+    {"name": "R1 vertex list adapter flips the handedness of decoded vectors", "file": MESH, "expect": "C10.R1",
+     "old": "            new_vals.append(self.vec_type(*elem))\n",
+     "new": "            new_vals.append(self.vec_type(*(-c for c in elem)))\n"},
+    {"name": "P R1 packed quaternion encode with early return and a named local", "file": SER, "expect": "silent",
+     "old": "        if not isinstance(val, dtypes.TupleCoord):\n"
+            "            val = dtypes.Quaternion(*val).data(self._child_spec.NUM_ELEMS)\n        return val\n",
+     "new": "        if isinstance(val, dtypes.TupleCoord):\n            return val\n"
+            "        quat = dtypes.Quaternion(*val)\n        return quat.data(self._child_spec.NUM_ELEMS)\n"},
+    {"name": "R5 vertex weights below a threshold are not written", "file": MESH, "expect": "C10.R5",
+     "old": "            joint_idx, influence = val\n            writer.write(se.U8, joint_idx)\n",
+     "new": "            joint_idx, influence = val\n            if influence < 1e-6:\n                continue\n"
+            "            writer.write(se.U8, joint_idx)\n"},
+    {"name": "P R5 vertex weight quantised into a local, loop unpacks in its header", "file": MESH, "expect": "silent",
+     "old": "        for val in vals:\n            joint_idx, influence = val\n            writer.write(se.U8, joint_idx)\n"
+            "            writer.write(se.U16, round(influence * 0xFFff), ctx=ctx)\n",
+     "new": "        for joint_idx, influence in vals:\n            raw_weight = round(influence * 0xFFff)\n"
+            "            writer.write(se.U8, joint_idx)\n            writer.write(se.U16, raw_weight, ctx=ctx)\n"},
 ]
